@@ -435,6 +435,25 @@ fn g_seq() -> BS<Case> {
         .boxed()
 }
 
+/// Sequences in which a token at a buffer-size threshold (up to 64 KiB, with
+/// and without escapes) comes first and ordinary values follow: state kept
+/// between tokens of one parser (scratch space, look-ahead) must not leak.
+fn g_seq_big() -> BS<Case> {
+    any::<bool>()
+        .prop_flat_map(|elisp| {
+            let (p, q) = if elisp { (POpt::elisp(), QOpt::elisp()) } else { (POpt::default_set(), QOpt::default_set()) };
+            let cfg = ValueCfg { ident: ident_rules(&p, &q), bytes: true, keywords: true, depth: 2, nodes: 8, branch: 3, str_max: 8 };
+            (g_big_atom(131072), vec(prop_oneof![2 => g_string(8).prop_map(MV::Str), 1 => g_value(cfg)], 1..5), vec(g_trivia(true), 1..4))
+                .prop_map(move |(big, rest, trivia)| {
+                    let mut values = vec![big];
+                    values.extend(rest);
+                    let values = values.into_iter().filter(|v| in_domain(&p, &q, v)).collect();
+                    Case::Seq { elisp, values, trivia, tail_comment: false }
+                })
+        })
+        .boxed()
+}
+
 fn g_triv() -> BS<Case> {
     g_qopt_index()
         .prop_flat_map(|qi| {
@@ -482,6 +501,7 @@ fn run(ctx: &mut Ctx) {
         .map(|w| {
             let mut c = parent.fork();
             c.run_prop(&format!("seq/{}", w), tier.pick(1_500, 50_000), g_seq(), check_case);
+            c.run_prop(&format!("seq-big/{}", w), tier.pick(6, 60), g_seq_big(), check_case);
             c.run_prop(&format!("trivia/{}", w), tier.pick(1_500, 50_000), g_triv(), check_case);
             c.run_prop(&format!("iter/{}", w), tier.pick(3_000, 80_000), g_iter(max_len), check_case);
             c.run_prop(&format!("hist/{}", w), tier.pick(1_500, 40_000), g_hist(), check_case);
